@@ -47,18 +47,18 @@ def capture(ctx, pki, cases, deadline_ms=4000, name="capture"):
     return good, skipped
 
 
-def flights_of(caps, side):
-    """MC input: the messages of `side` of every captured case"""
+def flights_of(caps, side, first=None):
+    """MC input: the messages of `side` of every captured case; first: {case: 1-based first message to mutate}"""
     out = []
     for name, (a, b) in caps.items():
         o = "c" if side == "s" else "s"
-        out.append({"case": name, "side": side, "msgs": a[side], "msgs2": b[side], "other": a[o]})
+        out.append({"case": name, "side": side, "msgs": a[side], "msgs2": b[side], "other": a[o], "from": (first or {}).get(name, 1)})
     return out
 
 
 def rec_flights(caps):
     """MC input for C07: the first record a client wrote (a ClientHello record)"""
-    return [{"case": name, "side": "rec", "msgs": [a["rec0"]], "msgs2": [a["rec0"]], "other": []} for name, (a, b) in caps.items()]
+    return [{"case": name, "side": "rec", "msgs": [a["rec0"]], "msgs2": [a["rec0"]], "other": [], "from": 1} for name, (a, b) in caps.items()]
 
 
 # ---------------------------------------------------------------- TLC: enumeration
@@ -187,19 +187,52 @@ def replace_caps(caps, side):
     return out
 
 
-def run_connection_family(ctx, pid, side, cases, classes=None, inserts=True, deadline_ms=700):
-    """The whole C33 (side='s') / C34 (side='c') pipeline. Returns coverage dict pieces."""
+def run_connection_family(ctx, pid, side, cases, classes=None, inserts=True, deadline_ms=700, batch=24):
+    """C33 (side='s') / C34 (side='c'): the pipeline below, over batches of cases (bounded memory); coverage merged."""
+    total = None
+    rp = getattr(ctx, "replay", None)
+    if rp:   # ./check Cxx --replay file: only the recorded (case, message, node, operator), judged by TLC as usual
+        cases = [rp["replay"]["case"]]
+    for i in range(0, len(cases), batch):
+        cov = _connection_batch(ctx, pid, side, cases[i:i + batch], classes, inserts, deadline_ms, "b%d" % (i // batch))
+        if total is None:
+            total = cov
+            continue
+        for k, v in cov.items():
+            if k in ("rule", "samples", "exhaustive", "deadline_ms"):
+                continue
+            if isinstance(v, (int, float)):
+                total[k] = max(total[k], v) if k == "allocation_max_kb" else total[k] + v
+            elif isinstance(v, list):
+                total[k] = sorted(set(total[k]) | set(v))
+            elif isinstance(v, dict):
+                for kk, vv in v.items():
+                    total[k][kk] = total[k].get(kk, 0) + vv if isinstance(vv, int) and k.startswith("outcomes_of") else vv
+    total["rule"] = total["rule"].replace("of %d case(s)" % len(cases[:batch]), "of %d case(s)" % len(total["cases"]))
+    return total
+
+
+def _connection_batch(ctx, pid, side, cases, classes, inserts, deadline_ms, btag):
+    """The whole pipeline for one batch of cases. Returns coverage dict pieces."""
     classes = classes or ALL_CLASSES
+    first = {c["name"]: c.get("from", 1) for c in cases}
+    cases = [{k: v for k, v in c.items() if k != "from"} for c in cases]
     sut = "client" if side == "s" else "server"
     pki = mkpki(ctx)
     caps, skipped = capture(ctx, pki, cases)
     if not caps:
         raise vlib.Machinery("%s: no case could be captured: %s" % (pid, skipped))
     cases = [c for c in cases if c["name"] in caps]
-    scn, pos = enumerate_scenarios(ctx, flights_of(caps, side), [], [], classes, inserts, [], pid.lower())
+    scn, pos = enumerate_scenarios(ctx, flights_of(caps, side, first), [], [], classes, inserts, [], pid.lower() + btag)
+    rp = getattr(ctx, "replay", None)
+    if rp:
+        want = rp["replay"]
+        scn = [s for s in scn if s["kind"] == "base" or (s["msg"] == want["scenario"]["msg"] and s["path"] == want["path"] and s["op"] == want["op"])]
+        if len(scn) < 2:
+            raise vlib.Machinery("replay: TLC did not enumerate the recorded scenario again")
     by_sid = {s["sid"]: s for s in scn}
     skels = {"%s#%d" % (p["case"], p["msg"]): p["skel"] for p in pos}
-    unmutable = sorted("%s#%d" % (p["case"], p["msg"]) for p in pos if not p["mutable"])
+    unmutable = sorted("%s#%d" % (p["case"], p["msg"]) for p in pos if not p["mutable"] and not p["covered"])
     rcaps = replace_caps(caps, side)
     hcaps = {name: {"c": a["c"], "s": a["s"]} for name, (a, b) in caps.items()} if side == "c" else {}
     req = {"pki": pki, "cases": cases, "caps": hcaps, "deadline_ms": deadline_ms}
@@ -282,6 +315,9 @@ def run_connection_family(ctx, pid, side, cases, classes=None, inserts=True, dea
             e["panic"] or e["err"], e["panic_at"], r["alloc_kb"]),
             {"case": [c for c in cases if c["name"] == r["case"]][0], "scenario": harness_scn(s), "op": r["op"], "path": r["path"], "observed": r["_ev"]})
 
+    if rp:
+        return {"evaluations": len(rows) + len(arows), "distinct_nontrivial": len(rows), "rule": "replay of one recorded scenario", "cases": [c["name"] for c in cases],
+                "skipped_cases": skipped, "samples": [], "exhaustive": False, "deadline_ms": deadline_ms}
     # 4. binding canary: a good row with one logged field corrupted must be rejected
     good = [r for r in rows if r["op"] != "none" and r["sid"] not in {x["sid"] for x, w in rejected}]
     if not good:
@@ -368,6 +404,10 @@ def run_import_family(ctx, pid, cases, map_cases, json_docs):
     recs = {name: a["rec0"] for name, (a, b) in caps.items()}
     hellos = [{"name": "map:" + n, "hs": recs[n][5:]} for n in map_cases if n in recs]
     scn, pos = enumerate_scenarios(ctx, rec_flights(caps), json_docs, hellos, ALL_CLASSES, False, ALL_DOC_CLASSES, pid.lower(), nshards=12)
+    rp = getattr(ctx, "replay", None)
+    if rp:
+        want = rp["replay"]
+        scn = [s for s in scn if s["op"] == "none" or (s["case"] == want["case"] and s["path"] == want["path"] and s["op"] == want["op"])]
     by_sid = {s["sid"]: s for s in scn}
     raw = [s for s in scn if s["kind"] in ("mut", "base")]
     doc = [s for s in scn if s["kind"] == "doc"]
@@ -437,6 +477,8 @@ def run_import_family(ctx, pid, cases, map_cases, json_docs):
             replay.update({"input_text": e["text"], "edit": {k: s[k] for k in ("path", "act", "node", "key")}})
         ctx.finding(sig, "%s on %s input (%s, node %s, operator %s): %s" % (w, r["t"], r["case"], r["path"], r["op"], text), replay)
 
+    if rp:
+        return {"evaluations": len(rrows) + len(drows), "distinct_nontrivial": len(rrows) + len(drows), "rule": "replay of one recorded input", "samples": [], "exhaustive": False}
     # binding canaries
     rejset = {r["sid"] for r, w in rejected}
     good = [r for r in rrows if r["op"] != "none" and r["sid"] not in rejset]
